@@ -476,7 +476,9 @@ class Builder:
                 twin = copy.deepcopy(out[-1])
                 if twin[0] == "g":
                     nums = [a for a in twin[2] if a[0] == "n" and a[1] in _HASH_TWINS]
-                    if nums and ch.bool():
+                    # not in macro calls: there the number may be an index or a loop count
+                    # (an index of 2**61-1 is invalid, a count of 2**61 never finishes)
+                    if nums and ch.bool() and twin[1] not in {m[0] for m in self.sc.macros}:
                         a = ch.pick(nums)
                         a[1] = _HASH_TWINS[a[1]]
                     out.append(twin)
